@@ -3,7 +3,7 @@
    obligations of every run: if the Go source changes meaning, a lemma here stops compiling. *)
 From Coq Require Import ZArith List Bool Lia Arith.
 From Verif Require Import Annotate.Model Annotate.Date Annotate.GenConst.
-From VerifGen Require Import GenAnnotate.
+From VerifGen Require Import GenAnnotate GenAnnotateConst.
 Import ListNotations.
 Open Scope Z_scope.
 
@@ -134,6 +134,12 @@ Proof.
   - rewrite get_at_last. destruct (last (map Some cl) None); cbn [res_map]; [f_equal; lia|reflexivity].
 Qed.
 
+(* the glue of annotate/way.go and annotate/relation.go: SetChild writes version, changeset and
+   location of the child into the reference — the same for way nodes and for relation members of
+   all three kinds (the way cache kept for the multipolygon orientation is property C16's) *)
+Lemma gen_set_child_ok : forall c r, gen_way_set_child c r = set_ref c r /\ gen_relation_set_child c r = set_ref c r.
+Proof. intros c r. split; reflexivity. Qed.
+
 (* everything together *)
 Theorem generated_code_is_model :
   (forall a b, gen_less_index a b = less a b) /\
@@ -145,11 +151,12 @@ Theorem generated_code_is_model :
   (forall cis cl end_, gen_version_before cis cl end_ = version_before cis cl end_) /\
   (forall cis current cl np o,
      gen_next_version_index cis current cl np o = res_map Z.of_nat (next_version_index cis current cl np o)) /\
+  (forall c r, gen_way_set_child c r = set_ref c r /\ gen_relation_set_child c r = set_ref c r) /\
   unix_nanos gen_commit_info_start_args = Some 1347442203000000000.
 Proof.
   split; [exact gen_less_index_ok|]. split; [exact gen_update_timestamp_ok|].
   split; [exact gen_child_update_ok|]. split; [exact gen_time_threshold_ok|].
   split; [exact gen_time_threshold_parent_ok|]. split; [exact gen_find_visible_ok|].
   split; [exact gen_version_before_ok|]. split; [exact gen_next_version_index_ok|].
-  exact commit_info_start_ok.
+  split; [exact gen_set_child_ok|]. exact commit_info_start_ok.
 Qed.
